@@ -113,6 +113,8 @@ Plan parse_plan(const std::string &text) {
             p.quiet_t = kv.u64("quiet", 0);
             p.drain = kv.u64("drain", 60000000ULL);
             p.rseed = kv.u64("rseed", 1);
+            p.epoch = kv.u64("epoch", 1700000000ULL);
+            p.outfault = atof(kv.str("outfault", "0").c_str());
             p.skew[0] = kv.i64("skew0"); p.skew[1] = kv.i64("skew1"); p.skew[2] = kv.i64("skew2");
             p.stdin_eof = kv.u64("eof", 0);
             p.o0 = (int)kv.u64("o0", 0);
@@ -200,6 +202,7 @@ struct RunState {
     std::vector<uint64_t> expected_src;                  // datagram id per expected frame
     // C18 bookkeeping
     bool quiet = false;
+    bool gave_up = false;  // the listener terminated after an injected standard-output error: a legitimate reaction to an I/O error
     uint64_t probes_recv = 0, probe_cargo = 0, effects_after_quiet = 0, damaged_recv = 0, recv_total = 0, handlers_done = 0;
     // soak runs: observable effects and datagrams received, sampled at the borders of an early and a late window of equal length
     uint64_t late_recv = 0;  // datagrams received less than 4.3 s (the range of a 32-bit ns presentation time) before the end of the run
@@ -532,9 +535,11 @@ void exec_plan(const std::string &text, bool verbose) {
     w.rxq_cap = p.qcap;
     w.can_read0_p = p.read0;
     w.env_on = p.env_on;
+    w.env_seed = p.rseed;
+    w.stdout_fault_p = p.outfault;
     w.can_txq_cap = p.cantxq;
     w.clock_gran = p.clkgran ? p.clkgran : 1;
-    w.t_origin = 1700000000ULL * 1000000000ULL + (p.rseed % 1000000007ULL) * 1000ULL;
+    w.t_origin = p.epoch * 1000000000ULL + (p.rseed % 1000000007ULL) * 1000ULL;
     w.now = w.t_origin;
     if (sim::g_shm) snprintf(sim::g_shm->context, sizeof sim::g_shm->context, "%s|%s|%s", p.prop.c_str(), p.scen.c_str(), p.mode_str().c_str());
 
@@ -553,6 +558,7 @@ void exec_plan(const std::string &text, bool verbose) {
 
     w.count(p.o0 == 2 ? "cfg.copy_gcc_O2" : p.o0 ? "cfg.copy_clang_O0_unsigned_char" : "cfg.copy_clang_O1");
     if (p.env_on) w.count("cfg.environment_variables_read_as_set");
+    if (p.epoch != 1700000000ULL) w.count(p.epoch < 2147483648ULL ? "cfg.date_2038_rollover_inside_the_run" : p.epoch < 4294967000ULL ? "cfg.date_after_2038" : "cfg.date_around_2106");
     if (p.stackfill != 0xA5) { sim::Tasks::refill_stacks((uint8_t)p.stackfill); w.count("cfg.stack_fill_other_than_A5"); }
     setup_nodes(rs);
     if (p.lstack >= 64 && p.lstack * 1024 < sim::Tasks::kStackSize && rs.listener >= 0) {
@@ -649,6 +655,14 @@ void exec_plan(const std::string &text, bool verbose) {
         RunState &rs = *g_rs;
         Node &n = w.nodes[node];
         if (c19) violation(strf("crash:exit:%s", n.prog.c_str()), strf("%s left service (%s, code %d) while carrying well-formed frames", n.name.c_str(), via_exit ? "exit()" : "return from main", code));
+        if (node == rs.listener && n.stdout_fault_seen && !c19) {
+            // An I/O error on its output is something a program may answer by terminating (the AAF and CVF listeners do): after an injected
+            // output error the run only asks that nothing worse than that happened. The run ends here, no end-of-run oracle applies.
+            w.count("ok.listener_terminated_after_injected_stdout_error");
+            rs.gave_up = true;
+            w.stop = true;
+            return;
+        }
         if (node == rs.listener) {
             if (!rs.listener_started && rs.recv_total == 0) harness_error(strf("listener %s terminated during start-up (code %d)", n.prog.c_str(), code));
             violation("exit", strf("%s terminated (%s, code %d) after receiving frame#%llu; %llu datagrams received so far", n.prog.c_str(),
@@ -778,6 +792,7 @@ void exec_plan(const std::string &text, bool verbose) {
         }
     if (p.quiet_t) w.at(w.t_origin + p.quiet_t, [&w] {
         g_rs->quiet = true;
+        w.stdout_fault_p = 0;
         w.rxq_cap = 4096;
         w.can_txq_cap = 0;
         for (auto &n : w.nodes) n.stall_until = 0;  // faults stop here
@@ -798,7 +813,10 @@ void exec_plan(const std::string &text, bool verbose) {
 
     // ---- final oracle
     sim::RunResult r;
-    if (c19) {
+    if (rs.gave_up) {
+        r = base_result(w);
+        r.nontrivial = rs.recv_total > 0;
+    } else if (c19) {
         c19_final_check(rs);
         // the talker end: every frame the bus delivered has been read, and all but an incomplete last batch has been sent
         if (rs.pending_cargo.size() >= (size_t)std::max(1, p.count))
